@@ -92,6 +92,7 @@ Bad_(class) == [k |-> "recvbad", n |-> 0, c |-> 0, cmd |-> 0, ack |-> 0, t |-> 0
                 buf |-> FALSE, fault |-> "", fk |-> 0]
 Junk_(class) == [Bad_(class) EXCEPT !.k = "sendjunk"]
 Reboot_(n) == [Bad_("") EXCEPT !.k = "reboot", !.n = n]
+Sibling_(pl) == [Bad_("") EXCEPT !.k = "sibling", !.p = pl.p]   \* a second Gateway object in the process reports version pl
 Cycle_ == [Bad_("") EXCEPT !.k = "cycle"]       \* async with gateway: ... left and entered again
 
 \* registry builders
